@@ -495,13 +495,13 @@ Proof.
                 | FBad => RErr EFirst end) as [[kids vis2]|e|] eqn:Ek; try discriminate.
       destruct (read_items fuel g R maxd (i_next it) depth vis2) as [[rest vis3]|e|] eqn:Er;
         try discriminate.
-      inversion E; subst. simpl titles_clean. rewrite Hfs. apply IH in Er. rewrite Er.
+      inversion E; subst. apply IH in Er.
       assert (Hkc : titles_clean kids = true).
       { destruct (i_first it) as [|c|].
         - inversion Ek; reflexivity.
         - destruct (depth + 1 >? maxd); [discriminate|]. apply IH in Ek. exact Ek.
         - discriminate. }
-      rewrite Hkc. reflexivity.
+      cbn [titles_clean]. rewrite Hfs, Hkc, Er. reflexivity.
     + destruct (page_of g R (DPage pp)) as [p|]; [|discriminate].
       destruct (match i_first it with
                 | FNone => ROk (Nil, id :: vis)
@@ -510,13 +510,13 @@ Proof.
                 | FBad => RErr EFirst end) as [[kids vis2]|e|] eqn:Ek; try discriminate.
       destruct (read_items fuel g R maxd (i_next it) depth vis2) as [[rest vis3]|e|] eqn:Er;
         try discriminate.
-      inversion E; subst. simpl titles_clean. rewrite Hfs. apply IH in Er. rewrite Er.
+      inversion E; subst. apply IH in Er.
       assert (Hkc : titles_clean kids = true).
       { destruct (i_first it) as [|c|].
         - inversion Ek; reflexivity.
         - destruct (depth + 1 >? maxd); [discriminate|]. apply IH in Ek. exact Ek.
         - discriminate. }
-      rewrite Hkc. reflexivity.
+      cbn [titles_clean]. rewrite Hfs, Hkc, Er. reflexivity.
 Qed.
 
 Lemma export_normal : forall maxd g T first f,
@@ -527,4 +527,39 @@ Proof.
   destruct (read_items (S (length g)) g (tvalue T) maxd first 0 []) as [[f0 vis]|e|] eqn:Er;
     try discriminate.
   inversion E; subst. apply read_clean in Er. exact Er.
+Qed.
+
+(* ------------------------------------------------------------------ *)
+(* export, import, export *)
+Lemma export_import_export_partial : forall maxd g T first f pc base g' first' T',
+  from_outline maxd g T first = ROk f ->
+  to_outline pc maxd base f = IOk g' first' T' ->
+  dests_resolve g' T' = true ->
+  from_outline maxd g' T' first' = ROk f.
+Proof.
+  intros maxd g T first f pc base g' first' T' Hex Him Hres.
+  apply roundtrip_partial with pc base; [exact Him | | exact Hres].
+  apply export_normal with maxd g T first. exact Hex.
+Qed.
+
+(* ------------------------------------------------------------------ *)
+(* the unconditional round trip is false for the code as written: five top-level bookmarks
+   "A"/1 "A"/2 "B"/3 "0"/4 "A"/5.  The second "A" gets the destination name "A\x01"; the leaf
+   [0, A, A\x01, B] is split into [0, A] and [A\x01, B]; the third "A" lands in the first leaf, is
+   renamed to "A\x01" there (insertUniqueIntoLeaf looks at that leaf only) and now shadows the
+   entry of the second "A", which exports with page 5 instead of 2. *)
+Definition bk (t : N) (p : Z) (r : forest) : forest := Node [t] p false false None Nil r.
+Definition witness : forest := bk 65 1 (bk 65 2 (bk 66 3 (bk 48 4 (bk 65 5 Nil)))).
+Definition witness_out : forest := bk 65 1 (bk 65 5 (bk 66 3 (bk 48 4 (bk 65 5 Nil)))).
+
+Lemma roundtrip_refuted : exists pc maxd base f g first T f',
+  to_outline pc maxd base f = IOk g first T /\ titles_clean f = true /\
+  from_outline maxd g T first = ROk f' /\ f' <> f /\ dests_resolve g T = false.
+Proof.
+  exists 6, 100, 10%N, witness.
+  destruct (to_outline 6 100 10 witness) as [g first T|e] eqn:E; [|vm_compute in E; discriminate].
+  exists g, first, T, witness_out.
+  vm_compute in E. inversion E; subst; clear E.
+  split; [reflexivity|]. split; [reflexivity|]. split; [vm_compute; reflexivity|].
+  split; [discriminate | vm_compute; reflexivity].
 Qed.
